@@ -297,7 +297,7 @@ func (e *Engine) RunHarness(pkgPath, name string) (*HarnessResult, error) {
 					res.Funcs[fn.String()] += n
 				}
 				for _, v := range p.violations {
-					key := v.Kind + "|" + v.ID + "|" + v.Msg
+					key := v.Kind + "|" + v.ID
 					if !violSeen[key] {
 						violSeen[key] = true
 						res.Violations = append(res.Violations, v)
